@@ -119,6 +119,21 @@ func ruleWR1(c *Ctx) {
 			c.ok(fn, construct+"|a:no-truncate-live", pos, e.Class+" on the live log does not truncate")
 		}
 	}
+	// (e) the live log is never unlinked or truncated by path: between an unlink and the rename a lock-free reader
+	// finds no log and shows an empty store
+	nrm := 0
+	for _, e := range c.F.Effects {
+		if e.Class != "remove" && e.Class != "truncate" {
+			continue
+		}
+		if e.Path == nil || !c.pathClass(e.Path)[classLOG] || c.isTempOfLog(e.Path) {
+			continue
+		}
+		nrm++
+		c.bad(c.Name(e.Fn), fmt.Sprintf("e:unlink-live %s#%d", calleeFullName(e.Call.Common()), nrm), c.Pos(e.Call.Pos()),
+			"the live log is removed/truncated by path: until it is recreated a lock-free reader sees no log (an empty store the history never passed through), and a kill in between loses every acknowledged event")
+	}
+	c.check(nrm == 0, "<module>", "e:no-unlink-live", "-", "no os.Remove/Truncate of the live log anywhere", fmt.Sprintf("%d removals/truncations of the live log", nrm))
 	// (b) rename protocol
 	rn := 0
 	for _, e := range c.renameSites() {
